@@ -89,7 +89,7 @@ def gen_program(rng, length, mix):
         elif o == "setv":
             val = rng.choice([["s", rng.choice(VALS)], ["l", rand_vals(rng, rng.randint(0, 3), floats=rng.random() < 0.2)],
                               ["s", rng.choice(VALS[:9])]])
-            prog.append(["setv", s, rand_key(rng, n), val])
+            prog.append(["setv", s, ["idxslot", s2] if rng.random() < 0.12 else rand_key(rng, n), val])
         elif o == "sett":
             prog.append(["sett", s, rng.choice([["cell", rng.randint(-1, 3), rng.randint(0, 3), rng.choice(VALS[:10])],
                                                 ["row", rng.randint(-1, 3), rand_vals(rng, rng.randint(1, 3))],
@@ -285,6 +285,12 @@ def oracle_tables(w, live):
                 w.findings.append(f"C01-held-row: rows obtained by t[i] and held show {rows_idx}, read one at a time "
                                   f"they show {now_rows}: looking at one row changed a row the program already held")
             rows_it = [tuple(r) for r in o] if cols else []
+            # ... and read as VECTORS (slice / copy of the row view), the way a loop body uses them
+            rows_vec = [tuple(r[:]) for r in o] if cols else []
+            rows_cp = [tuple(r.copy()) for r in o] if cols else []
+            if cols and (not _same(rows_vec, rows_it) or not _same(rows_cp, rows_it)):
+                w.findings.append(f"C02-rowview: iterated rows read cell by cell give {rows_it}, as vectors (row[:], "
+                                  f"row.copy()) they give {rows_vec} / {rows_cp}")
             want = [tuple(c.__dict__["_underlying"][i] for c in cols) for i in range(n)]
             if cols and (not _same(rows_idx, want) or not _same(rows_it, want)):
                 w.findings.append(f"C02-rowview: rows {rows_idx} / {rows_it} vs columns {want}")
@@ -803,6 +809,17 @@ def _do_setv(w, o, key, val, changed_ok):
         key = ["mask", [key[1][i % len(key[1])] for i in range(n)] if (len(key[1]) != n + 1 and key[1]) else key[1]]
         if n == 0 or not key[1]:
             raise Skip()
+    keyobj = None
+    if key[0] == "idxslot":
+        # the key is an int VECTOR THE PROGRAM HOLDS (possibly a live column of some table): a write must not
+        # change its key operand either
+        kv = w.slot(key[1], "v")
+        kd = kv.__dict__
+        if kv is o or kd.get("_dtype") is None or kd["_dtype"].kind is not int or kd["_dtype"].nullable \
+                or not kd["_underlying"] or any(type(x) is not int or not -n <= x < n for x in kd["_underlying"]):
+            raise Skip()
+        keyobj = kv
+        key = ["idx", list(kd["_underlying"])]
     if key[0] == "idx" and not key[1]:
         raise Skip()
     ups = _resolve_updates(n, key, val)
@@ -813,7 +830,7 @@ def _do_setv(w, o, key, val, changed_ok):
     w.stats["shared_now"] += bool(others)
     pyval = val[1] if val[0] == "s" else list(val[1])
     try:
-        o[_pykey(key)] = pyval
+        o[keyobj if keyobj is not None else _pykey(key)] = pyval
     except AliasError:
         w.stats["writes_alias"] += 1
         if not others or not n:
